@@ -4,16 +4,16 @@
 #   (3) demo FAILS with the change         (4) demo PASSES without it
 # On success copies patch.diff, the demo and meta.json to /verif/seeded/<property>-<n>/ .
 set -u
-P=$1; N=$2
-OUT=/tmp/seed/$P-out
+P=$1; N=$2; ROOT=${3:-/tmp/seed}; ID=${4:-$N}   # optional: output root of the agents, id number to keep it under
+OUT=$ROOT/$P-out
 export GOFLAGS=-mod=mod GOPROXY=off GOSUMDB=off GOTOOLCHAIN=local; unset GOWORK
-WT=/tmp/confirm/$P-$N
+WT=/tmp/confirm/$P-$ID
 rm -rf $WT; mkdir -p /tmp/confirm
 git -C /repo worktree add --detach $WT HEAD -q || exit 2
 cleanup() { git -C /repo worktree remove --force $WT 2>/dev/null; }
 trap cleanup EXIT
 cd $WT
-LOG=/tmp/confirm/$P-$N.log; : > $LOG
+LOG=/tmp/confirm/$P-$ID.log; : > $LOG
 git apply $OUT/change$N.diff >>$LOG 2>&1 || { echo "$P-$N: PATCH-DOES-NOT-APPLY"; exit 1; }
 if git diff --name-only | grep -E '_test\.go$|testutil|\.pb\.go$' >/dev/null; then echo "$P-$N: PATCH-TOUCHES-TESTS"; exit 1; fi
 go build ./... >>$LOG 2>&1 || { echo "$P-$N: BUILD-FAILS"; exit 1; }
@@ -27,20 +27,20 @@ git checkout -- . ; # revert source change, keep (untracked) demo
 if [ $RC1 -eq 0 ]; then echo "$P-$N: DEMO-PASSES-WITH-CHANGE (not a demonstration)"; exit 1; fi
 if [ $RC2 -ne 0 ]; then echo "$P-$N: DEMO-FAILS-ON-PRISTINE"; tail -5 $LOG.demo_pristine; exit 1; fi
 if ! grep -q -- '--- FAIL\|FAIL' $LOG.demo_change; then echo "$P-$N: DEMO-NONZERO-BUT-NO-FAIL-LINE"; tail -5 $LOG.demo_change; exit 1; fi
-D=/verif/seeded/$P-$N; mkdir -p $D
+D=/verif/seeded/$P-$ID; mkdir -p $D
 cp $OUT/change$N.diff $D/patch.diff; cp $OUT/demo${N}_test.go $D/demo_test.go; cp $OUT/demo$N.where $D/demo.where
-python3 - "$P" "$N" "$OUT" "$D" <<'PY'
+python3 - "$P" "$N" "$OUT" "$D" "$ID" <<'PY'
 import json,sys
-P,N,OUT,D=sys.argv[1:]
+P,N,OUT,D,ID=sys.argv[1:]
 try: m=json.load(open(f"{OUT}/meta{N}.json"))
 except Exception as e: m={"note":"agent meta unreadable: %s"%e}
-meta={"property":P,"id":f"{P}-{N}","breaks":m.get("summary"),"mechanism_broken":m.get("mechanism_broken"),
+meta={"property":P,"id":f"{P}-{ID}","breaks":m.get("summary"),"mechanism_broken":m.get("mechanism_broken"),
  "needs_to_manifest":m.get("needs_to_manifest"),"files_touched":m.get("files_touched"),
  "author":"independent sub-agent given only the property text and a scratch worktree",
- "confirmed_by_me":{"scratch_worktree":"/tmp/confirm/%s-%s (removed)"%(P,N),
+ "confirmed_by_me":{"scratch_worktree":"/tmp/confirm/%s-%s (removed)"%(P,ID),
    "ran":["git apply patch.diff","go build ./...","go test -vet=off -count=1 -timeout 25m ./...  (all packages ok with the change)",
           "demo with change: FAILS","demo on pristine source: PASSES"]},
  "detected_by":None}
 json.dump(meta,open(f"{D}/meta.json","w"),indent=1)
 PY
-echo "$P-$N: CONFIRMED"
+echo "$P-$ID: CONFIRMED"
